@@ -56,3 +56,36 @@ Example C11_example :
   = vs_bytes (fst (fst (match snd (w_run_plain compress_none (mk_wcfg 0 0 1024 8 1) [([1], [2]); ([3], [4; 5])]) with Done x => x | _ => (vs_empty, [], mk_meta FormatV2 0 0 0 0) end)))
   /\ benign [RInterrupt; RAccept 1; RInterrupt; RAccept 3; RAccept 1].
 Proof. split; [vm_compute; reflexivity|]. repeat (constructor; try exact I; try (cbn; discriminate)). Qed.
+
+(* ================= readers under schedules =================
+   ld_sched: every block load is performed under its own schedule of short reads / interruptions and
+   its own sequence of buffer sizes.  If the file is a well-formed store for the plain loader it is
+   the same store (same blocks, same content) for the scheduled one — so every theorem about cursors
+   and iterators on well-formed stores (C02, C03, C04, C05, C10_same_content) applies verbatim and
+   yields the same results *)
+From Grenad.model Require Import Spec.
+From Grenad.proofs Require Import ReaderRefine IoReader.
+
+Theorem C11_reader_same_store : forall dec file codec scheds reqs root levels bs,
+  (forall ord, benign (scheds ord)) -> (forall ord, Forall (fun r => 1 <= r) (reqs ord)) ->
+  wf_store (load_block dec file codec) root levels bs ->
+  wf_store (ld_sched dec file codec scheds reqs) root levels bs.
+Proof. exact wf_store_sched. Qed.
+Print Assumptions C11_reader_same_store.
+
+(* spelled out for cursor histories: the same results, operation by operation *)
+From Grenad.proofs Require Import WriterStore V1Same.
+
+Theorem C11_reader_histories : forall dec file codec scheds reqs root levels bs,
+  (forall ord, benign (scheds ord)) -> (forall ord, Forall (fun r => 1 <= r) (reqs ord)) ->
+  wf_store (load_block dec file codec) root levels bs ->
+  forall ops, adm_ops (content root levels bs) Fresh ops ->
+  exists st1 st2 rs,
+    run_ops (ld_sched dec file codec scheds reqs) root levels cs_fresh ops = Done (st1, rs) /\
+    run_ops (load_block dec file codec) root levels cs_fresh ops = Done (st2, rs) /\
+    Forall2 res_ok (snd (aspec_ops (content root levels bs) Fresh ops)) rs.
+Proof.
+  intros dec file codec scheds reqs root levels bs Hb Hq W ops Ha.
+  exact (same_histories _ _ _ _ _ _ _ _ (wf_store_sched dec file codec scheds reqs root levels bs Hb Hq W) W _ eq_refl eq_refl ops Ha).
+Qed.
+Print Assumptions C11_reader_histories.
